@@ -35,7 +35,12 @@ def cases(tier, seed):
     rng = random.Random(seed * 29 + 15)
     kinds = ['mix', 'sizes', 'unknown', 'gss', 'ssh1', 'broken', 'terrapin', 'clean', 'mix', 'sizes', 'mix', 'mix']
     n = 8 if tier == 'quick' else 144
-    return [{'kind': kinds[i % len(kinds)], 'seed': rng.randrange(1 << 30)} for i in range(n)]
+    cs = [{'kind': kinds[i % len(kinds)], 'seed': rng.randrange(1 << 30)} for i in range(n)]
+    for c in cs:
+        if c['kind'] == 'terrapin':
+            c['marker'] = True   # the quick tier's single Terrapin peer carries the marker (advisory text lists the algorithms); thorough has both variants via the seed
+            break
+    return cs
 
 
 def _v(key, what, **d):
@@ -64,8 +69,10 @@ def build_script(c):
     if kind == 'clean':
         k = audit.sym_kex(['sntrup761x25519-sha512@openssh.com', 'kex-strict-s-v00@openssh.com'], ['ssh-ed25519'], ['aes256-gcm@openssh.com'], ['hmac-sha2-512-etm@openssh.com'])
     if kind == 'terrapin':
-        k['enc_sc'] = k['enc_cs'] = ['chacha20-poly1305@openssh.com', 'aes128-cbc', 'aes256-ctr']
-        k['mac_sc'] = k['mac_cs'] = ['hmac-sha2-256-etm@openssh.com', 'hmac-sha1']
+        # several CBC ciphers and several ETM MACs, with the strict-kex marker on every other peer (advisory note) and without it (per-algorithm warnings)
+        k['enc_sc'] = k['enc_cs'] = ['chacha20-poly1305@openssh.com', 'aes128-cbc', 'aes192-cbc', 'aes256-cbc', '3des-cbc', 'aes256-ctr', 'aes128-cbc']
+        k['mac_sc'] = k['mac_cs'] = ['hmac-sha2-256-etm@openssh.com', 'hmac-sha2-512-etm@openssh.com', 'umac-128-etm@openssh.com', 'hmac-sha1']
+        k['kex'] = [x for x in k['kex'] if not x.startswith('kex-strict')] + (['kex-strict-s-v00@openssh.com'] if c['seed'] % 2 == 0 or c.get('marker') else [])
     hk, gex = {}, None
     if kind == 'sizes':
         k['key'] = rng.sample(['ssh-rsa', 'rsa-sha2-512', 'ssh-ed25519', 'ssh-rsa-cert-v01@openssh.com', 'ecdsa-sha2-nistp256'], 3)
